@@ -309,6 +309,19 @@ def _stdspec(prop: str, which) -> List[Obl]:
                 note="discharges an assume_specification / std rewrite used by the Verus units") for w in which]
 
 
+def _verus_rice(prop: str, which) -> List[Obl]:
+    out = []
+    for fn, src in which:
+        out.append(Obl(id=f"{prop.lower()}.verus.rice.{fn}", prop=prop, engine="verus", target=f"rice:{fn}", fns=[src] if src else [],
+                       note="every log2_b in 0..=63, every value, unbounded quotient (Seq<bool> stream contract); default configuration"))
+    return out
+
+
+V_R_W = ("write_rice", "codes::rice::RiceWrite::write_rice")
+V_R_R = ("read_rice", "codes::rice::RiceRead::read_rice")
+V_R_L = ("len_rice", "codes::rice::len_rice")
+V_R_LEMMAS = [(l, "") for l in ("lemma_unary_unique", "lemma_bits_determine", "lemma_low_bits", "lemma_field_low", "lemma_field_injective",
+                                 "lemma_rice_no_overflow", "lemma_rice_split", "lemma_rice_q", "lemma_rice_r")]
 V_MB_W = ("write_minimal_binary", "codes::minimal_binary::MinimalBinaryWrite::write_minimal_binary")
 V_MB_R = ("read_minimal_binary", "codes::minimal_binary::MinimalBinaryRead::read_minimal_binary")
 V_MB_L = ("len_minimal_binary", "codes::minimal_binary::len_minimal_binary")
@@ -321,11 +334,11 @@ V_LEMMAS = [(l, "") for l in ("lemma_limit", "lemma_bits_determine", "lemma_fiel
 
 
 def _c03() -> List[Obl]:
-    return (_verus_golomb("C03", [V_MB_W, V_MB_R, V_G_W, V_G_R] + V_LEMMAS) + _stdspec("C03", ["ilog2"]) +_codes("C03", r"c03|contract", [(RT_BASE, None), (RT_K, RT_K_QUICK)]) + _golomb("C03", r"c03|contract", ["rt", "mb_rt"]))
+    return (_verus_golomb("C03", [V_MB_W, V_MB_R, V_G_W, V_G_R] + V_LEMMAS) + _stdspec("C03", ["ilog2"]) + _verus_rice("C03", [V_R_W, V_R_R] + V_R_LEMMAS) +_codes("C03", r"c03|contract", [(RT_BASE, None), (RT_K, RT_K_QUICK)]) + _golomb("C03", r"c03|contract", ["rt", "mb_rt"]))
 
 
 def _c04() -> List[Obl]:
-    return (_verus_golomb("C04", [V_MB_W, V_G_W, ("lemma_limit", "")]) + _stdspec("C04", ["ilog2"]) +_codes("C04", r"c04|contract", [(DEF_H, None)]) + _golomb("C04", r"c04|contract", ["def", "mb_def"]))
+    return (_verus_golomb("C04", [V_MB_W, V_G_W, ("lemma_limit", "")]) + _stdspec("C04", ["ilog2"]) + _verus_rice("C04", [V_R_W]) +_codes("C04", r"c04|contract", [(DEF_H, None)]) + _golomb("C04", r"c04|contract", ["def", "mb_def"]))
 
 
 def _c05() -> List[Obl]:
@@ -339,7 +352,7 @@ def _c05() -> List[Obl]:
 
 
 def _c06() -> List[Obl]:
-    return (_verus_golomb("C06", [V_MB_L, V_G_L, V_MB_W, V_G_W, V_MB_R, V_G_R, ("lemma_limit", ""), ("lemma_golomb_no_overflow", "")]) + _stdspec("C06", ["ilog2"]) +_codes("C06", r"c06", [(LEN_H, None), (DEF_H, None)]) + _golomb("C06", r"c06", ["len", "def"])
+    return (_verus_golomb("C06", [V_MB_L, V_G_L, V_MB_W, V_G_W, V_MB_R, V_G_R, ("lemma_limit", ""), ("lemma_golomb_no_overflow", "")]) + _stdspec("C06", ["ilog2"]) + _verus_rice("C06", [V_R_L, V_R_W, V_R_R, ("lemma_rice_no_overflow", "")]) +_codes("C06", r"c06", [(LEN_H, None), (DEF_H, None)]) + _golomb("C06", r"c06", ["len", "def"])
             + _codes("C06", r"bits consumed", [(["rt_gamma", "rt_delta", "rt_omega", "rt_zeta3", "rt_vbyte_be", "rt_zeta_k2", "rt_pi_k2", "rt_exp_golomb_k1"], None)]))
 
 
@@ -490,7 +503,7 @@ def _c03_params() -> List[Obl]:
     for h in ("reader_be_u16", "reader_le_u16", "reader_be_u32", "reader_le_u32", "writer_be_u8", "writer_le_u64"):
         for m in ("gamma", "delta", "zeta3", "zeta"):
             out.append(Obl(id=f"c03.params.{h}.{m}", prop="C03", engine="kani", target=f"obl_params::c03_params_{h}_{m}",
-                           tier="quick" if (h in ("reader_be_u16", "writer_be_u8") and m in ("gamma", "zeta3")) else "thorough",
+                           tier="quick" if (h in ("reader_be_u16", "writer_be_u8") and m == "gamma") else "thorough",
                            kind="bounded" if "writer" in h else "complete",
                            bound="backend window of 20 words; writer state and value symbolic (zeta: k = 2)" if "writer" in h else "",
                            note="" if "writer" in h else "end to end: real BufBitWriter default method -> words -> real BufBitReader default method, every value, 0..=9 symbolic preceding bits, 20 symbolic following bits",
@@ -511,7 +524,7 @@ def _c05_peek() -> List[Obl]:
     for h in ("reader_be_u16", "reader_le_u16"):
         for m in ("gamma", "delta", "zeta3"):
             out.append(Obl(id=f"c05.params.{h}.{m}", prop="C05", engine="kani", target=f"obl_params::c03_params_{h}_{m}", kind="complete",
-                           tier="quick" if m == "zeta3" else "thorough",
+                           tier="quick" if (m == "gamma" and "be" in h) else "thorough",
                            bound="", fns=["codes::params default read methods (end to end with the real writer)"]))
     return out
 
